@@ -431,4 +431,39 @@ deriving DecidableEq, Repr, Inhabited
 def describeSdist (sde : Option String) (p : SdistPlan) : SdistDesc :=
   { gzipMtime := archiveMtime sde, entries := sdistEntries sde p }
 
+/-! ### the file tree and the selection (glob matching is an abstract relation, see C09) -/
+
+/-- one regular file as a directory walk reports it; a tree is a list of these in *listing order* -/
+structure FileEntry where
+  rel : PathKey
+  stMode : Nat
+  uid : Nat
+  gid : Nat
+  uname : String
+  gname : String
+  mtime : Int
+  digest : String
+  size : Nat
+deriving DecidableEq, Repr, Inhabited
+
+/-- an entry of `Module.includes` (packages first, then explicit includes, in configuration order) after glob
+expansion and exclusion: which project-relative paths it contributes and where they go in the wheel -/
+structure IncludeRule where
+  sel : PathKey → Bool
+  target : PathKey → String
+
+/-- `find_files_to_add()` for the wheel: `to_add` is a set keyed by `path`, so the first include (in configuration
+order) that reaches a file decides its `source_root`/`target_dir` -/
+def selectWheel (rules : List IncludeRule) (tree : List FileEntry) : List SelFile :=
+  tree.filterMap fun f =>
+    (rules.find? fun r => r.sel f.rel).map fun r => ⟨f.rel, r.target f.rel, f.stMode, f.digest, f.size⟩
+
+/-- `stat.S_IMODE` (what `tarfile.gettarinfo` stores) -/
+def sIMode (m : Nat) : Nat := m &&& 0o7777
+
+/-- `find_files_to_add(exclude_build=False)` for the sdist (+ pyproject, readmes, licences, scripts: all part of `sel`) -/
+def selectSdist (sel : PathKey → Bool) (tree : List FileEntry) : List SdistFile :=
+  (tree.filter fun f => sel f.rel).map fun f =>
+    ⟨f.rel, sIMode f.stMode, f.uid, f.gid, f.uname, f.gname, f.mtime, f.size, f.digest⟩
+
 end Poetry.Build
